@@ -546,3 +546,12 @@ def argmaxBelief (b : List Rat) : Nat :=
   (List.range b.length).foldl (fun m s =>
     if diffSmall (.fin 0) (.fin (b.getD s 0)) && decide (b.getD s 0 > b.getD m 0) then s else m) 0
 end AITB.MS
+
+namespace AITB.MS
+/-- a library model object seen through the generic interface (what a converting constructor reads from it):
+    getTransitionProbability(s,a,s1) = T[a](s,s1), getExpectedReward(s,a,s1) = R(s,a) -/
+def srcOf (s : St) : Src :=
+  { S := s.S, A := s.A, disc := s.disc,
+    T := mk3 s.S s.A s.S (fun x a x1 => get3 s.T a x x1),
+    R := mk3 s.S s.A s.S (fun x a _ => get2 s.R x a) }
+end AITB.MS
